@@ -69,7 +69,8 @@ Theorem C01_end_to_end_samples : forall o L md5, (forall l, length (md5 l) = 16%
     Forall (FlacCodec.Enc_proofs.block_ok (conv_si (f_si f)) bps) blocks /\
     FlacCodec.Enc_proofs.short_only_last (conv_si (f_si f)) blocks /\
     FlacCodec.Ast.si_total (conv_si (f_si f)) = FlacCodec.Enc_proofs.blocks_samples blocks /\
-    FlacCodec.Ast.si_channels (conv_si (f_si f)) = ch /\ FlacCodec.Enc_proofs.blocks_samples blocks < 2 ^ 36.
+    FlacCodec.Ast.si_channels (conv_si (f_si f)) = ch /\ FlacCodec.Enc_proofs.blocks_samples blocks < 2 ^ 36 /\
+    FlacCodec.Spec.spec_stream (f_stream f) = Ok (conv_si (f_si f), blocks).
 Proof. intros. eapply e2e_sample_pcm; eauto. Qed.
 
 (* C01 for FlacSampleWriter, complete: hypotheses on the input only.  For well-formed options, a writer the
@@ -256,6 +257,26 @@ Theorem C01_written_bytes_are_read : forall o L md5, (forall l, length (md5 l) =
       FlacReaders.Spec.exactly_once written atr.
 Proof. exact written_bytes_are_read. Qed.
 
+(* C02 end to end, hypotheses on the input only: the finished file of a FlacSampleWriter run (any chunking) passes the
+   codec area's strict stream validator — tag, STREAMINFO, every frame parses with valid CRCs, is well-formed and
+   RFC-valid and re-serialises to the very bytes it was parsed from, fixed-blocksize numbering 0,1,2,..., the advertised
+   block size on every frame but the last, totals consistent — and the validator's blocks are the samples written *)
+Theorem C02_sample_writer_file_valid : forall o L md5, (forall l, length (md5 l) = 16%nat) ->
+  forall p rate bps wo ch total w chunks,
+  options_wf wo ->
+  sample_new p [] wo rate bps ch total = Ok w ->
+  forallb (FlacCodec.Wf.fits bps) (concat chunks) = true ->
+  let W := N.of_nat (length (concat chunks)) / ch in
+  1 <= W -> N.of_nat (length (concat chunks)) < 2 ^ 36 ->
+  match total with Some T => T = ch * W | None => True end ->
+  exists f blocks,
+    sample_run (encB o L rate bps) md5 p w chunks = Ok f /\
+    FlacCodec.Spec.spec_stream (f_stream f) = Ok (conv_si (f_si f), blocks) /\
+    concat (map FlacCodec.Stream.interleave_frame blocks) =
+      firstn (N.to_nat ch * (length (concat chunks) / N.to_nat ch)) (concat chunks).
+Proof. exact sample_writer_file_valid. Qed.
+
+Print Assumptions C02_sample_writer_file_valid.
 Print Assumptions C01_written_bytes_are_read.
 Print Assumptions C01_written_channels_are_read.
 Print Assumptions C01_byte_writer_lossless.
